@@ -2,8 +2,9 @@ import ScyllaVerif.Model.Util
 import ScyllaVerif.Model.Pager
 /-! Line-protocol driver for C07.
 
-Case: `pg|sess <skip 0|1> <eager|slow|drop<k>> <page> <page> ...` (`pg`: single-connection pager,
-`sess`: `Session::execute_iter` on a one-node cluster with the default retry policy), page = `<rows>:<state>:<faults>` with
+Case: `pg|sess|sessdg <skip 0|1> <eager|slow|drop<k>|pdrop<k>> <page> <page> ...` (`pg`: single-connection
+pager, `sess`: `Session::execute_iter` on a one-node cluster with the default retry policy, `sessdg`: the
+same with DowngradingConsistencyRetryPolicy on an idempotent statement), page = `<rows>:<state>:<faults>` with
 state `.` = none (last page), `-` = empty byte string, else hex; faults = letters of
 `Pager.connAttempts` or `-`. Rows are numbered 0,1,2,... across the pages.
 
@@ -70,21 +71,54 @@ def implLog (impl : String) : Option (List String) :=
     if body == "-" then some [] else some (body.splitOn ",")
   | none => none
 
+/-- number of rows in the implementation's line -/
+def implRows (impl : String) : Option Nat :=
+  match (words impl).find? (·.startsWith "rows=") with
+  | some w =>
+    let body := (w.drop 5).toString
+    if body == "-" then some 0 else some (body.splitOn ",").length
+  | none => none
+
 def run (case impl : String) : String :=
   match words case with
   | kind :: skip :: cons :: pageWords =>
-    if kind != "pg" && kind != "sess" then "bad-case" else
+    if kind != "pg" && kind != "sess" && kind != "sessdg" then "bad-case" else
     if skip != "0" && skip != "1" then "bad-case" else
     match pageWords.mapM parsePage with
     | none => "bad-case"
     | some ps =>
       if ps.isEmpty then "bad-case" else
       let pages := buildPages 0 ps
-      let s0 := init pages (if kind == "sess" then buildSessFaults true ps else buildFaults ps)
+      if kind == "sessdg" && !(ps.all fun p => dgSupported p.2.2) then "bad-case" else
+      let s0 := init pages (if kind == "sess" then buildSessFaults true ps
+                            else if kind == "sessdg" then (ps.map fun p => dgAttempts false p.2.2).flatten
+                            else buildFaults ps)
       let fuel := 4 * measure s0 + 16
       if cons == "eager" || cons == "slow" then
         let s := runEager fuel s0
         showSt s (showLog s)
+      else if cons.startsWith "pdrop" then
+        -- `k` rows, then ONE more poll, then drop: that poll yields row k+1, or is pending (possibly
+        -- after swallowing an empty page), or finishes the stream - the scheduler decides
+        match (cons.drop 5).toString.toNat? with
+        | none => "bad-case"
+        | some k =>
+          let loA := runDrop false k fuel s0
+          let loB := runDrop false (k + 1) fuel s0
+          let hiB := runDrop true (k + 1) fuel s0
+          let w := words impl
+          if w.any (· == "fin=dropped") then
+            match implLog impl, implRows impl with
+            | some obs, some m =>
+              let cand := if m == k then loA else loB
+              if (m == k || m == k + 1) && cand.rx == .dropped && cand.delivered.length == m
+                 && isPrefixStr (logWords loA) obs && isPrefixStr obs (logWords hiB) then
+                showSt cand (",".intercalate obs)
+              else s!"REJECT dropped with {m} rows, log not between {showLog loA} and {showLog hiB}"
+            | _, _ => "REJECT unparsable"
+          else
+            let fin := if loA.rx != .dropped then loA else loB
+            showSt fin (showLog fin)
       else if cons.startsWith "drop" then
         match (cons.drop 4).toString.toNat? with
         | none => "bad-case"
